@@ -42,6 +42,8 @@ pub struct CaseResult {
     pub classes: Vec<String>,
     /// ids of active known findings whose triggering shape the generator removed from this case
     pub excluded: Vec<String>,
+    /// additional additive counters reported in evidence (e.g. fault runs per history)
+    pub counters: Vec<(String, u64)>,
 }
 
 /// One generated-search domain of a property
@@ -201,6 +203,7 @@ struct ShardOut {
     classes: BTreeMap<String, u64>,
     foreign: BTreeMap<String, u64>,
     excluded_known: BTreeMap<String, u64>,
+    counters: BTreeMap<String, u64>,
     inconclusive: u64,
     samples: Vec<Value>,
     failure: Option<(Value, Violation)>,
@@ -233,6 +236,9 @@ fn run_shard(prop: &dyn Prop, dom: &dyn Domain, tier: Tier, seed: u64, shard: u6
             o.evaluations += 1;
             for c in &r.classes {
                 *o.classes.entry(c.clone()).or_insert(0) += 1;
+            }
+            for (k, n) in &r.counters {
+                *o.counters.entry(k.clone()).or_insert(0) += n;
             }
             for e in &r.excluded {
                 *o.excluded_known.entry(format!("{e} (shape removed by the generator)")).or_insert(0) += 1;
@@ -455,6 +461,7 @@ pub fn run_prop(prop: &dyn Prop, tier: Tier, seed: u64) -> i32 {
     let mut classes: BTreeMap<String, u64> = BTreeMap::new();
     let mut foreign: BTreeMap<String, u64> = BTreeMap::new();
     let mut excluded_known: BTreeMap<String, u64> = BTreeMap::new();
+    let mut counters: BTreeMap<String, u64> = BTreeMap::new();
     let mut inconclusive = 0u64;
     let mut per_domain = Vec::new();
     if violations.is_empty() {
@@ -498,6 +505,9 @@ pub fn run_prop(prop: &dyn Prop, tier: Tier, seed: u64) -> i32 {
                 for (k, v) in o.excluded_known {
                     *excluded_known.entry(k).or_insert(0) += v;
                 }
+                for (k, v) in o.counters {
+                    *counters.entry(format!("{}:{}", dom.name(), k)).or_insert(0) += v;
+                }
                 inconclusive += o.inconclusive;
                 if samples.len() < 6 {
                     for s in o.samples.into_iter().take(1) {
@@ -540,6 +550,7 @@ pub fn run_prop(prop: &dyn Prop, tier: Tier, seed: u64) -> i32 {
             "exhaustive_parts": exhaustive_parts,
             "foreign_discards": foreign,
             "excluded_known": excluded_known,
+            "counters": counters,
             "inconclusive": inconclusive,
             "regression_inputs_replayed": regress_run,
             "known_findings_active": excl.active.iter().map(|f| f.id.clone()).collect::<Vec<_>>(),
